@@ -25,6 +25,8 @@ func init() {
 			{"C13.size-fields", "declared element sizes equal the bytes the encoder writes (linear forms)", 7, c13SizeFields},
 			{"C13.goodbye", "goodbye items: hash of the written name, offsets from the byte counter, tail marker, sorted before layout", 7, c13Goodbye},
 			{"C13.byte-counter", "every encoded element's byte count is added to the running offset", 6, c13ByteCounter},
+			{"C13.encode-counts", "the encoder counts every byte it writes", 20, c13EncodeCounts},
+			{"C13.outputs-truncated", "output files are created truncating (shared with C04/C05)", 10, func(c *Ctx) { c.outputsTruncated() }},
 			{"C13.grammar", "tar() emits Entry XAttr* (Payload|Symlink|Device|(Filename Child)* Goodbye)", 1, c13Grammar},
 			{"C13.codec", "encoder and decoder agree on every element type", 15, func(c *Ctx) { c.codecAgree(allElementTypes) }},
 		},
@@ -984,4 +986,82 @@ func instrIndex(ins ssa.Instruction) int {
 		}
 	}
 	return -1
+}
+
+// c13EncodeCounts: tar() computes every goodbye offset and size from the byte counts Encode
+// returns, so Encode must count everything it writes: in FormatEncoder.Encode (and the helpers
+// and writer methods it uses) the byte count of every write - WriteUint64, WriteID, io.Copy,
+// Write, WriteString - is returned or added to the count that is returned.  A write whose count
+// is dropped shortens every later offset by that many bytes while the bytes on the wire stay
+// correct, so sequential readers never notice.
+func c13EncodeCounts(c *Ctx) {
+	fn := c.mustFn("FormatEncoder.Encode")
+	if fn == nil {
+		return
+	}
+	isWrite := func(ci ssa.CallInstruction) bool {
+		com := ci.Common()
+		name := callee(ci)
+		if com.IsInvoke() {
+			name = com.Method.Name()
+			return name == "Write" || name == "WriteString"
+		}
+		switch {
+		case name == "io.Copy", name == "io.CopyN", name == "io.WriteString", name == "io.CopyBuffer":
+			return true
+		case strings.HasPrefix(name, "(desync.writer).Write"), strings.HasSuffix(name, ").Write"), strings.HasSuffix(name, ").WriteString"):
+			return true
+		case strings.HasPrefix(name, "fmt.Fprint"):
+			return true
+		}
+		return false
+	}
+	var fns []*ssa.Function
+	fns = append(fns, fnsDeep(fn)...)
+	for _, k := range []string{"writer.WriteUint64", "writer.WriteID"} {
+		if w := c.fn(k); w != nil {
+			fns = append(fns, w)
+		}
+	}
+	n := 0
+	for _, f := range fns {
+		for _, b := range f.Blocks {
+			for _, ins := range b.Instrs {
+				ci, ok := ins.(ssa.CallInstruction)
+				if !ok || !isWrite(ci) {
+					continue
+				}
+				n++
+				key := fmt.Sprintf("%s:count-of-%s", fnKey(f), strings.TrimPrefix(callee(ci), "(desync.writer)."))
+				v, isVal := ins.(ssa.Value)
+				counted := false
+				if isVal && v.Referrers() != nil {
+					for _, r := range *v.Referrers() {
+						switch x := r.(type) {
+						case *ssa.Return:
+							counted = true // "return io.Copy(...)"
+						case *ssa.Extract:
+							if x.Index != 0 || x.Referrers() == nil {
+								continue
+							}
+							for _, rr := range *x.Referrers() {
+								switch y := rr.(type) {
+								case *ssa.DebugRef:
+								case *ssa.BinOp:
+									counted = counted || y.Op == token.ADD
+								case *ssa.Return, *ssa.Store, *ssa.Convert, *ssa.Phi:
+									counted = true
+								}
+							}
+						}
+					}
+				}
+				c.verdict(counted, key, ins.Pos(), "the byte count of the write is returned or added to the returned count",
+					"bytes are written to the archive but their count is dropped: Encode reports fewer bytes than it wrote and every goodbye offset and size computed from it is short")
+			}
+		}
+	}
+	if n < 10 {
+		c.bad("FormatEncoder.Encode:writes", fn.Pos(), "only %d writes found in the encoder", n)
+	}
 }
